@@ -8,11 +8,11 @@ from . import parse, exec as mx
 
 
 class Engine:
-    def __init__(self, opaque_local=(), trace=(), slice_bound=2):
+    def __init__(self, opaque_local=(), trace=(), slice_bound=2, overflow_checks=False):
         t0 = time.time()
         sl = common.slot()
-        scratch = sl.dir("mir")
-        self.mir_text = parse.dump_mir(common.REPO, scratch)
+        scratch = sl.dir("mir-ovf" if overflow_checks else "mir")
+        self.mir_text = parse.dump_mir(common.REPO, scratch, overflow_checks=overflow_checks)
         self.dump_s = time.time() - t0
         self.fns = parse.parse_mir(self.mir_text)
         self.ti = mx.TypeInfo(common.REPO)
